@@ -21,6 +21,7 @@ import (
 
 	"github.com/mycoria/mycoria/config"
 	"github.com/mycoria/mycoria/frame"
+	"github.com/mycoria/mycoria/state"
 
 	"verif/core"
 	"verif/ids"
@@ -113,6 +114,26 @@ func (w *c14World) traffic(from int) error {
 	defer g.ReturnToPool()
 	if err := g.Unseal(b.St.GetSession(a.IP())); err != nil {
 		return fmt.Errorf("unseal at %s: %w", b.Name, err)
+	}
+	return nil
+}
+
+// trafficAcrossWrap: the keys a setup left behind also have to last. The
+// sender's regular sequence number is put just before the 32-bit wrap and a
+// few frames are sealed and unsealed in order: both ends have to roll over to
+// the same next key.
+func (w *c14World) trafficAcrossWrap(from int) error {
+	a := w.n[from]
+	sess := a.St.GetSession(w.n[1-from].IP())
+	if sess == nil || !sess.Encryption().IsSetUp() {
+		return nil
+	}
+	h := state.EncryptionSessionTestHelper{EncryptionSession: sess.Encryption()}
+	h.ReglSetOut(0xFFFF_FFFF - 2)
+	for i := 0; i < 6; i++ {
+		if err := w.traffic(from); err != nil {
+			return fmt.Errorf("frame %d of 6 around the wrap of the sequence number: %w", i+1, err)
+		}
 	}
 	return nil
 }
@@ -353,6 +374,14 @@ func c14Run(c *core.Case, bud c14Budget, ia, ib int) {
 		w.deliver(0)
 	}
 	w.checkQuiescent("after drain")
+	if w.isSetUp(0) && w.isSetUp(1) && c.Mode() != "dfs" && c.Chance("long-lived", 1, 3) {
+		for from := 0; from < 2; from++ {
+			if err := w.trafficAcrossWrap(from); err != nil {
+				c.Fatalf("after drain, both established, traffic long after the setup (sender %s): %v", w.n[from].Name, err)
+			}
+		}
+		c.Class("quiescent/traffic-across-the-sequence-wrap")
+	}
 	for i := 0; i < 2; i++ {
 		if !w.isSetUp(i) {
 			w.nextPacketStartsSetup(i)
